@@ -1,5 +1,6 @@
 import JwtProofs.Decode
 import JwtModel.Encode
+import Props.FnTie
 /-!
 # C02 — only permitted key roles can issue each claim kind; typed decoders are kind-safe
 
